@@ -149,6 +149,19 @@ def reader_call(rng, t, rd, present, path):
     raise KeyError(rd)
 
 
+class _FailingClose:
+    """a file handle whose close() closes the file and then fails, as a last flush on a full disk does"""
+    def __init__(self, h):
+        self.__dict__["_h"] = h
+
+    def close(self):
+        self.__dict__["_h"].close()
+        raise OSError(28, "injected: no space left on device")
+
+    def __getattr__(self, name):
+        return getattr(self.__dict__["_h"], name)
+
+
 class Session:
     """drives one Tdf object through access modes, with the abstract permission model"""
 
@@ -183,10 +196,24 @@ class Session:
         if sha(self.path) != before:
             self.V("entering-a-context-changes-bytes", f"__enter__ changed the file (armed={self.armed})")
 
-    def exit(self, exc=False):
+    def exit(self, exc=False, fail_close=False):
         before = sha(self.path)
+        if fail_close and self.inside and hasattr(self.t, "handler"):
+            # the final flush of the context fails (disk full, file-size limit): close() closes the file and raises.
+            # Whatever that does to the caller, the object is afterwards outside any context with no allow_write()
+            # outstanding - what the model below assumes after every exit
+            self.t.handler = _FailingClose(self.t.handler)
+            self.rec.count("c08:context-left-while-close-fails")
         try:
-            self._exit(exc)
+            try:
+                self._exit(exc)
+            except OSError as e:
+                if not (fail_close and "injected" in str(e)):
+                    raise
+                self.inside = False
+                self.armed = "no"
+                self.ctx_w = "no"
+                self._phase("idle")
         finally:
             self.rec.count("oracle:C08.leaving-a-context-is-not-a-mutation")
             if sha(self.path) != before:
@@ -354,7 +381,8 @@ def shard_interleave(desc, rec):
                 elif r < 0.35:
                     if s.inside:
                         ex = rng.random() < 0.3
-                        steps.append("exit-exc" if ex else "exit"); s.exit(ex)
+                        fc = len(steps) % 3 == 0       # every third exit or so: the closing flush fails (no random draw)
+                        steps.append(("exit-exc" if ex else "exit") + ("(close fails)" if fc else "")); s.exit(ex, fail_close=fc)
                     else:
                         steps.append("enter"); s.enter()
                 elif r < 0.65:
